@@ -86,6 +86,22 @@ def h_distribution(e, cfg):
             e.oblige_eq("poisson:logpmf-formula", got, obj(np.array([exp], dtype=object), (1,)))
         elif claim == "exp-log":
             e.oblige_eq("poisson:pmf=exp(logpmf)", st.Poisson.pmf(k, lam), np.frompyfunc(T.exp_, 1, 1)(e.read(st.Poisson.logpmf(k, lam))))
+        elif claim == "degenerate-rate-zero":
+            # rate 0 is documented valid (all mass at k = 0): pmf(0;0) = 1, logpmf(0;0) = 0, pmf(k>0;0) = 0, cdf = 1
+            kk = torch.tensor([0.0, 1.0, 3.0])
+            for form, r0 in (("float", 0.0), ("tensor", torch.tensor(0.0)), ("batched", torch.tensor([0.0, 0.0, 0.0]))):
+                pm, lp, cd = e.read(st.Poisson.pmf(kk, r0)), e.read(st.Poisson.logpmf(kk, r0)), e.read(st.Poisson.cdf(kk, r0))
+                e.oblige("poisson:rate0:pmf(0)=1", T.same(pm[0], 1), form=form, got=str(pm[0]))
+                e.oblige("poisson:rate0:logpmf(0)=0", T.same(lp[0], 0), form=form, got=str(lp[0]))
+                for j in (1, 2):
+                    e.oblige("poisson:rate0:pmf(k>0)=0", T.same(pm[j], 0), form=form, k=j, got=str(pm[j]))
+                for j in range(3):
+                    e.oblige("poisson:rate0:cdf=1", T.same(cd[j], 1), form=form, k=j, got=str(cd[j]))
+            # and inside a batch of otherwise symbolic rates
+            lam3 = e.sym((3,), torch.float32, "lam3", lo=0, hi=5)
+            e.assume(T.eq(e.read(lam3)[1], 0))
+            pm = e.read(st.Poisson.pmf(torch.zeros(3), lam3))
+            e.oblige("poisson:rate0:pmf(0)=1", T.same(pm[1], 1), form="symbolic-batch", got=str(pm[1]))
         elif claim == "exp-log-large-support":
             # concrete large counts (their factorials leave the float32 range: concrete sub-terms run on the real float32 kernels) x symbolic rate
             kk = torch.tensor([35.0, 40.0, 60.0])
@@ -223,7 +239,7 @@ def checks(tier):
     ln = [dict(dt=dt) for dt in (1.0, 0.5, 1.3)]
     ds = []
     for d in ("poisson", "normal", "lognormal"):
-        claims = ["logdensity-formula", "exp-log", "exp-log-large-support", "logcdf", "moments"] if d == "poisson" else ["density-formula", "exp-log", "logcdf", "cdf-formula", "params-roundtrip"]
+        claims = ["logdensity-formula", "exp-log", "degenerate-rate-zero", "exp-log-large-support", "logcdf", "moments"] if d == "poisson" else ["density-formula", "exp-log", "logcdf", "cdf-formula", "params-roundtrip"]
         for c in claims:
             if d == "lognormal" and c == "params-roundtrip":
                 continue          # needs exp(log(y)/2) = sqrt(y): beyond the instantiated axioms (listed as uncovered)
